@@ -24,6 +24,8 @@ static void p_fail(const char *key, const char *fmt, ...)
         va_list ap; va_start(ap, fmt); vsnprintf(det, sizeof det, fmt, ap); va_end(ap);
         h_bad = 1;
         if (p_selftest) { snprintf(p_lastkey, sizeof p_lastkey, "%s", key); return; }
+        /* true number of occurrences (the reports below are thinned out per process) */
+        if (strstr(key, "field_parity goes back")) mc_count(strstr(key, "[a unit with undefined") ? "field_order_symptom_in_known_class_frames" : "field_order_symptom_in_other_frames", 1);
         if (!mc_replaying) {            /* one defect fires for many inputs: a handful of reports per worker is enough */
                 int i; for (i = 0; i < nseen; i++) if (!strcmp(seen[i].key, key)) break;
                 if (i == nseen && nseen < 96) { snprintf(seen[nseen].key, sizeof seen[0].key, "%s", key); seen[nseen++].n = 0; }
@@ -107,6 +109,7 @@ struct h_frame {
         int n; struct h_line l[H_MAXL];
         int64_t pts; uint32_t mask;
         int raw_n, raw_off;             /* samples per raw line and sp.offset; raw_n == 0: no sampling parameters are passed */
+        int raw_geo;                    /* index into GEO[]: which lines the raw buffer holds and how its rows are ordered */
 };
 #define ALL_SERVICES 0xFFFFFFFFu
 
@@ -138,7 +141,32 @@ static void f_add(struct h_frame *f, uint32_t id, unsigned line, unsigned salt)
         if (f->n >= H_MAXL) h_die("frame too long");
         f->l[f->n].id = id; f->l[f->n].line = line; payload(f->l[f->n].data, id, line, salt); f->n++;
 }
-static void f_raw(struct h_frame *f, int n, int off) { f->raw_n = n; f->raw_off = off; }
+static void f_raw(struct h_frame *f, int n, int off) { f->raw_n = n; f->raw_off = off; f->raw_geo = 0; }
+
+/* Raw buffer geometries (sp.start[], sp.count[], sp.interlaced).  Row of a line in the buffer, from the
+ * documentation of vbi_sampling_par: sequential = all rows of the first field, then those of the second;
+ * interlaced = rows of the two fields alternate, first field first (needs equal counts). */
+struct h_geo { int start[2], count[2], interlaced; };
+#define NGEO 8
+static const struct h_geo GEO[NGEO] = {
+        { { 7, 320 }, { 17, 17 }, 0 },
+        { { 8, 320 }, { 16, 17 }, 0 },
+        { { 7, 320 }, { 17, 12 }, 0 },
+        { { 18, 320 }, { 6, 17 }, 0 },
+        { { 7, 322 }, { 17, 15 }, 0 },
+        { { 7, 320 }, { 17, 17 }, 1 },
+        { { 10, 325 }, { 12, 12 }, 1 },
+        { { 8, 320 }, { 16, 17 }, 1 },         /* not valid (interlaced needs equal counts): every raw frame is rejected */
+};
+static int geo_valid(const struct h_geo *g) { return !g->interlaced || g->count[0] == g->count[1]; }
+/* row of the raw buffer that holds `line', -1 if the buffer does not hold it */
+static int raw_row(const struct h_frame *f, unsigned line)
+{
+        const struct h_geo *g = &GEO[f->raw_geo];
+        int fld = line >= 313, r = (int) line - g->start[fld];
+        if (r < 0 || r >= g->count[fld]) return -1;
+        return g->interlaced ? r * 2 + fld : fld ? g->count[0] + r : r;
+}
 
 static const char *id_name(uint32_t id)
 {
@@ -163,7 +191,8 @@ static const char *frame_str(const struct h_frame *f)
         if (f->mask != ALL_SERVICES) n += snprintf(o + n, 420 - n, " mask=%x", f->mask);
         for (int i = 0; i < f->n && n < 360; i++) n += snprintf(o + n, 420 - n, " %s@%u", id_name(f->l[i].id), f->l[i].line);
         if (n >= 360) n += snprintf(o + n, 420 - n, " ...(%d lines)", f->n);
-        if (f->raw_n) n += snprintf(o + n, 420 - n, " [raw: %d samples, sp.offset %d]", f->raw_n, f->raw_off);
+        if (f->raw_n) n += snprintf(o + n, 420 - n, " [raw: %d samples, sp.offset %d, buffer lines %d+%d from %d/%d %s]", f->raw_n, f->raw_off,
+                                    GEO[f->raw_geo].count[0], GEO[f->raw_geo].count[1], GEO[f->raw_geo].start[0], GEO[f->raw_geo].start[1], GEO[f->raw_geo].interlaced ? "interlaced" : "sequential");
         snprintf(o + n, 420 - n, "}");
         return o;
 }
@@ -178,12 +207,14 @@ static int cfg_fixed(const struct h_cfg *c) { return c->did >= 0x10 && c->did <=
 
 /* ---- what the documentation / the standards permit ----------------------- */
 
-enum { L_OK, L_ORDER, L_LINE, L_SERVICE, L_RAWPAR };
-static const char *const leg_name[] = { "ok", "line order", "line number", "service", "raw line without sampling parameters" };
+enum { L_OK, L_ORDER, L_LINE, L_SERVICE, L_RAWPAR, L_RAWGEO, L_RAWRANGE };
+static const char *const leg_name[] = { "ok", "line order", "line number", "service", "raw line without sampling parameters",
+                                        "invalid sampling parameters", "raw line not in the raw buffer" };
 
 static int legality(const struct h_frame *f)
 {
         unsigned last = 0;
+        if (f->raw_n && !geo_valid(&GEO[f->raw_geo])) return L_RAWGEO;      /* sampling parameters are checked whenever they are passed */
         for (int i = 0; i < f->n; i++) {
                 const struct h_line *l = &f->l[i];
                 if (l->line) { if (l->line <= last) return L_ORDER; last = l->line; }
@@ -198,7 +229,8 @@ static int legality(const struct h_frame *f)
                 case PK_WSS: if (ln != 23) return L_LINE; break;
                 case PK_CC:  if (ln != 21) return L_LINE; break;
                 case PK_RAW: if (!f->raw_n) return L_RAWPAR;
-                             if (!((ln >= 7 && ln <= 23) || (ln >= 320 && ln <= 336))) return L_LINE; break;
+                             if (!((ln >= 7 && ln <= 23) || (ln >= 320 && ln <= 336))) return L_LINE;
+                             if (raw_row(f, ln) < 0) return L_RAWRANGE; break;
                 default: return L_SERVICE;
                 }
         }
@@ -235,10 +267,36 @@ static const char *reject_class(const struct h_frame *f, const struct h_cfg *c)
         return hr ? "too large, with a raw line" : "too large, sliced lines only";
 }
 
+/* Class of the input frame for the field order of its data units, from the frame alone.
+ * Known cause (finding D3): the field of a unit with undefined line number (0) is taken from the last line
+ * with a number among the sliced lines SINCE THE LAST VBI_SLICED_VBI_625 ENTRY of the array (encoded or
+ * masked out), not since the start of the packet.  The class holds when such a unit has no numbered
+ * sliced line between itself and the preceding raw entry, and a second-field unit (that raw line or
+ * anything before it) was encoded earlier.  Every other frame is "other". */
+#define FO_KNOWN "[a unit with undefined line number (0) follows a raw VBI line that is in or follows the second field]"
+#define FO_OTHER "[frame without an undefined-line unit after a second-field raw VBI line]"
+static const char *field_order_class(const struct h_frame *f)
+{
+        int any_second = 0, after_raw = 0; unsigned since_raw = 0;
+        for (int i = 0; i < f->n; i++) {
+                const struct h_line *l = &f->l[i];
+                int k = kind_of_id(l->id), wanted = (l->id & f->mask) != 0;
+                if (k == PK_RAW) {                               /* splits the array whether it is encoded or not */
+                        after_raw = 1; since_raw = 0;
+                        if (wanted && l->line >= 313) any_second = 1;
+                        continue;
+                }
+                if (!wanted) continue;
+                if (l->line == 0) { if (after_raw && since_raw == 0 && any_second) return FO_KNOWN; continue; }
+                since_raw = l->line;
+                if (l->line >= 313) any_second = 1;
+        }
+        return FO_OTHER;
+}
+
 /* ---- inputs as the library sees them (exactly sized heap blocks) ---------- */
 
 static uint8_t pix(unsigned row, unsigned x) { return (uint8_t) (row * 29u + x * 7u + (x >> 5) + 1u); }
-static int raw_row(unsigned line) { return line >= 320 ? 17 + (int) line - 320 : (int) line - 7; }
 
 struct m_sub { vbi_sliced *sl; uint8_t *raw; vbi_sampling_par sp; int has_sp; };
 static void m_prepare(const struct h_frame *f, struct m_sub *s)
@@ -255,13 +313,15 @@ static void m_prepare(const struct h_frame *f, struct m_sub *s)
         s->raw = NULL; s->has_sp = 0;
         if (f->raw_n) {
                 static uint8_t rb[34 * 720];
-                for (unsigned r = 0; r < 34; r++) for (int x = 0; x < f->raw_n; x++) rb[r * f->raw_n + x] = pix(r, x);
-                s->raw = mc_exact(rb, 34 * (size_t) f->raw_n);
+                const struct h_geo *g = &GEO[f->raw_geo];
+                unsigned rows = g->count[0] + g->count[1];      /* every row has its own content, the block ends with the last row */
+                for (unsigned r = 0; r < rows; r++) for (int x = 0; x < f->raw_n; x++) rb[r * f->raw_n + x] = pix(r, x);
+                s->raw = mc_exact(rb, rows * (size_t) f->raw_n);
                 memset(&s->sp, 0, sizeof s->sp);
                 s->sp.scanning = 625; s->sp.sampling_format = VBI_PIXFMT_YUV420; s->sp.sampling_rate = 13500000;
                 s->sp.bytes_per_line = f->raw_n; s->sp.offset = f->raw_off;
-                s->sp.start[0] = 7; s->sp.start[1] = 320; s->sp.count[0] = 17; s->sp.count[1] = 17;
-                s->sp.interlaced = FALSE; s->sp.synchronous = TRUE;
+                s->sp.start[0] = g->start[0]; s->sp.start[1] = g->start[1]; s->sp.count[0] = g->count[0]; s->sp.count[1] = g->count[1];
+                s->sp.interlaced = g->interlaced; s->sp.synchronous = TRUE;
                 s->has_sp = 1;
         }
 }
@@ -517,6 +577,8 @@ static int run_frame(struct run *r, const struct h_frame *f, int iface, cor_size
         if (OUT_N == start) { h_viol("accepted frame produced no output", "%s", what); return -1; }
         static struct p_frame pf;
         size_t pn = 0;
+        p_field_order_class = field_order_class(f);
+        if (p_field_order_class[1] == 'a') mc_count("frames_of_the_known_field_order_class", 1);
         if (p_output(&r->cfg, &r->ps, OUT + start, OUT_N - start, f->pts, &pf, PES + PES_N, &pn)) return -1;
         PES_N += pn;
         /* the parsed lines are the input lines, in order */
@@ -531,8 +593,13 @@ static int run_frame(struct run *r, const struct h_frame *f, int iface, cor_size
                 if (g->line != w->line) { char key[120]; snprintf(key, sizeof key, "content: data unit carries another line than the input line (%s)", kind_name(k)); h_viol(key, "%s: input %s@%u, parsed line %u (field %d)", what, id_name(w->id), w->line, g->line, g->field + 1); return -1; }
                 if (k == PK_RAW) {
                         if (g->fpp != (unsigned) (f->raw_off - 132) || g->npix != (unsigned) f->raw_n) { h_viol("content: raw line position or length differs from the sampling parameters", "%s: line %u first_pixel_position %u pixels %u, want %d %d", what, w->line, g->fpp, g->npix, f->raw_off - 132, f->raw_n); return -1; }
-                        int row = raw_row(w->line);
-                        for (int x = 0; x < f->raw_n; x++) if (p_rawpix[g->rawslot][x] != pix(row, x)) { h_viol("content: raw samples differ from the input", "%s: line %u sample %d: %02x want %02x", what, w->line, x, p_rawpix[g->rawslot][x], pix(row, x)); return -1; }
+                        int row = raw_row(f, w->line);
+                        if (row < 0) { h_viol("content: raw line encoded although the raw buffer does not hold it", "%s: line %u", what, w->line); return -1; }
+                        for (int x = 0; x < f->raw_n; x++) if (p_rawpix[g->rawslot][x] != pix(row, x)) {
+                                int other = -1; for (int r2 = 0; r2 < 40; r2++) if (p_rawpix[g->rawslot][x] == pix(r2, x) && (x + 1 >= f->raw_n || p_rawpix[g->rawslot][x + 1] == pix(r2, x + 1))) { other = r2; break; }
+                                h_viol("content: raw samples differ from the row of the input buffer that holds the line", "%s: line %u (row %d of the buffer) sample %d: %02x want %02x%s%.0d", what, w->line, row, x, p_rawpix[g->rawslot][x], pix(row, x), other >= 0 ? "; the unit carries row " : "", other >= 0 ? other : 0);
+                                return -1;
+                        }
                 } else if (!payload_eq(k, g->data, w->data)) {
                         char key[120]; snprintf(key, sizeof key, "content: payload bits differ from the input line (%s)", kind_name(k));
                         h_viol(key, "%s: %s@%u input %02x%02x%02x.. parsed %02x%02x%02x..", what, id_name(w->id), w->line, w->data[0], w->data[1], w->data[2], g->data[0], g->data[1], g->data[2]); return -1;
